@@ -21,6 +21,8 @@ The missing check gamma = 3 is the finding in FindingEHEP.lean.
 import EPV.Lemmas.EHEP
 import EPV.Gen.EHEPInit
 
+import EPV.Lemmas.Bridge.DetonTactics
+
 set_option linter.all false
 
 open EPV EPV.Gen EPV.EHEPL
@@ -82,27 +84,35 @@ theorem ehep_no_nan (p : EHEP.P) (x t : ℝ) (ha : Accepted p) (hγ : 1 < p.gamm
   have hD : p.D ≠ 0 := h0.ne'
   have hg : p.gamma - 1 ≠ 0 := by linarith
   have hq : 0 < p.xtilde / p.D := by positivity
+  have e2 : 0 < p.D - p.up := by
+    have : p.D / (p.gamma + 1) ≤ p.D := div_le_self h0.le (by linarith)
+    linarith
+  -- every side condition of a leaf is a fact of the context, positive by `positivity`, or a product of two
+  -- such — whatever order and writing the traced formula gives them (`epv_deton_wd_pool`)
   refine ⟨?_, ?_, ?_, ?_, ?_⟩
   · intro ht hρ
+    have ht' := ht.ne'
     simp only [EHEP.L23.WellDefined, epv_leaf] at hρ ⊢
-    exact ⟨ht.ne', hD, hρ, hg⟩
+    epv_deton_wd_pool []
   · intro ht hρ
-    simp only [EHEP.L22.WellDefined, epv_leaf] at hρ ⊢
-    exact ⟨(by linarith : (0 : ℝ) < t).ne', hD, (by linarith : (0 : ℝ) < t - p.xtilde / p.D).ne', hρ, hg⟩
-  · simp only [EHEP.L19.WellDefined, epv_leaf]
-    have : 0 < 16 / 9 * p.rho_0 * (p.up + p.D / 2) / p.D := by positivity
-    exact ⟨hD, this.ne', hg⟩
-  · intro ht hρ
-    simp only [EHEP.L18.WellDefined, epv_leaf] at hρ ⊢
-    exact ⟨(by linarith : (0 : ℝ) < p.D * t - p.xtilde).ne', hD, hρ, hg⟩
-  · intro ht
-    simp only [EHEP.L17.WellDefined, epv_leaf]
+    have ht0 : (0 : ℝ) < t := by linarith
+    have ht' := ht0.ne'
     have e1 : 0 < t - p.xtilde / p.D := by linarith
-    have e2 : 0 < p.D - p.up := by
-      have : p.D / (p.gamma + 1) ≤ p.D := div_le_self h0.le (by linarith)
-      linarith
-    have : 0 < 16 / 9 * p.rho_0 * ((p.D - p.up) * (p.xtilde / p.D) / (t - p.xtilde / p.D)) / p.D := by positivity
-    exact ⟨hD, e1.ne', this.ne', hg⟩
+    have e1' := e1.ne'
+    simp only [EHEP.L22.WellDefined, epv_leaf] at hρ ⊢
+    epv_deton_wd_pool []
+  · simp only [EHEP.L19.WellDefined, epv_leaf]
+    epv_deton_wd_pool []
+  · intro ht hρ
+    have e3 : (0 : ℝ) < p.D * t - p.xtilde := by linarith
+    have e3' := e3.ne'
+    simp only [EHEP.L18.WellDefined, epv_leaf] at hρ ⊢
+    epv_deton_wd_pool []
+  · intro ht
+    have e1 : 0 < t - p.xtilde / p.D := by linarith
+    have e1' := e1.ne'
+    simp only [EHEP.L17.WellDefined, epv_leaf]
+    epv_deton_wd_pool []
 
 /-- non-vacuity at the defaults -/
 example : ∃ p : EHEP.P, EhepDocumented p := by
